@@ -20,6 +20,7 @@ pub fn jobs(prop: &str, tier: Tier) -> Vec<(String, u64)> {
         "C16" => vec![
             ("proc:fdleak".into(), 1),
             ("proc:dirs".into(), 1),
+            ("proc:hide".into(), 1),
             ("proc:msvc".into(), 2),
             ("proc:argv".into(), 8),
             ("proc:volume".into(), 8),
@@ -28,8 +29,10 @@ pub fn jobs(prop: &str, tier: Tier) -> Vec<(String, u64)> {
             (format!("proc:filter:{}", tier.pick(7, 8)), 16),
         ],
         "C18" => vec![("proc:flags".into(), 4)],
+        "C05" => vec![("proc:status".into(), 16)],
         "C02" | "C03" => vec![("proc:conform".into(), 8)],
         "C19" => vec![("proc:summary".into(), 1)],
+        "C20" => vec![("proc:pty".into(), 16)],
         "C12" => vec![("proc:errors".into(), 1)],
         _ => vec![],
     }
@@ -40,19 +43,43 @@ struct Out {
     code: Option<i32>,
 }
 
+/// Runs the n2 binary; if it does not finish within 40 s it is killed and the
+/// result says so (exit code None, output `N2-TIMEOUT`).
 fn n2(args: &[&str]) -> Out {
-    let o = Command::new(N2)
+    use std::io::Read;
+    let out_path = "n2.stdout.tmp";
+    let f = std::fs::File::create(out_path).expect("stdout file");
+    let f2 = f.try_clone().expect("clone");
+    let mut child = Command::new(N2)
         .args(args)
         .stdin(std::process::Stdio::null())
+        .stdout(f)
+        .stderr(f2)
         .env_remove("NINJA_STATUS")
-        .output()
+        .spawn()
         .expect("run n2 binary");
-    let mut stdout = o.stdout;
-    stdout.extend_from_slice(&o.stderr);
-    Out {
-        stdout,
-        code: o.status.code(),
-    }
+    let deadline = std::time::Instant::now() + std::time::Duration::from_secs(40);
+    let code = loop {
+        match child.try_wait().expect("wait") {
+            Some(st) => break st.code(),
+            None => {
+                if std::time::Instant::now() > deadline {
+                    let _ = child.kill();
+                    let _ = child.wait();
+                    let _ = std::fs::remove_file(out_path);
+                    return Out {
+                        stdout: b"N2-TIMEOUT".to_vec(),
+                        code: None,
+                    };
+                }
+                std::thread::sleep(std::time::Duration::from_millis(5));
+            }
+        }
+    };
+    let mut stdout = Vec::new();
+    std::fs::File::open(out_path).and_then(|mut f| f.read_to_end(&mut stdout)).ok();
+    let _ = std::fs::remove_file(out_path);
+    Out { stdout, code }
 }
 
 fn fresh() {
@@ -568,7 +595,7 @@ fn conform_job(ctx: &mut Ctx, res: &mut ShardResult) {
         let mut built = root.clone();
         built.sim = r0.sim.clone();
         built.snap = crate::exec::snapshot();
-        let edits: Vec<EditOp> = edit_alphabet(t, &built).into_iter().filter(|e| !matches!(e, EditOp::Variant(_) | EditOp::GenVariant(_) | EditOp::RemoveSource(_))).collect();
+        let edits: Vec<EditOp> = edit_alphabet(t, &built).into_iter().filter(|e| !matches!(e, EditOp::Variant(_) | EditOp::GenVariant(_) | EditOp::RemoveSource(_) | EditOp::DepfileGone(_))).collect();
         std::env::set_current_dir("..").unwrap();
         for e in std::iter::once(None).chain(edits.iter().map(Some)) {
             idx += 1;
@@ -716,6 +743,100 @@ fn conform_job(ctx: &mut Ctx, res: &mut ShardResult) {
     res.sample(|| json!({"templates": names}));
 }
 
+// --- the fancy progress display on a real pty (C20) -------------------------------
+
+/// n2 under a pseudo terminal of a given width, with descriptions and output
+/// lines that place multi-byte characters around every cut position while
+/// commands run long enough for the display thread to render them.  A render
+/// problem must not abort or alter the build.
+fn pty_job(ctx: &mut Ctx, res: &mut ShardResult) {
+    let job = ctx.job.clone();
+    let mut idx = 0u64;
+    for cols in [10usize, 11, 12, 19, 20, 21, 40] {
+        for unit in ["é", "€", "😀", "a"] {
+            for shift in 0..4usize {
+                idx += 1;
+                if let Some(c) = &ctx.replay {
+                    if c["index"].as_u64() != Some(idx) {
+                        continue;
+                    }
+                } else if idx % ctx.nshards != ctx.shard {
+                    continue;
+                }
+                ctx.marker.set(idx, format!("cols {} unit {} shift {}", cols, unit, shift).as_bytes());
+                fresh();
+                res.evaluations += 1;
+                let mut desc = "x".repeat(shift);
+                while desc.len() < cols + 12 {
+                    desc.push_str(unit);
+                }
+                // two steps: the first prints a long line (shown as the last
+                // output line) and takes long enough to be rendered; the second
+                // depends on it.
+                let manifest = format!(
+                    "rule slow\n  command = printf '%s\\n' '{d}'; sleep 0.7; touch $out\n  description = {d}\nrule quick\n  command = touch $out\n  description = {d} second\nbuild first: slow\nbuild second: quick first\n",
+                    d = desc
+                );
+                std::fs::write("build.ninja", &manifest).unwrap();
+                let inner = format!("stty cols {} rows 24; {} -j 2; echo EXIT=$?", cols, N2);
+                let o = Command::new("script")
+                    .args(["-qfc", &inner, "/dev/null"])
+                    .stdin(std::process::Stdio::null())
+                    .output();
+                let replay = || json!({"job": job, "index": idx});
+                let Ok(o) = o else {
+                    res.violation("machinery:script-missing", || "util-linux `script` could not be run".into(), replay);
+                    return;
+                };
+                let text = String::from_utf8_lossy(&o.stdout).to_string();
+                let ok = text.contains("EXIT=0") && std::path::Path::new("first").exists() && std::path::Path::new("second").exists();
+                if !ok {
+                    let tail: String = text.chars().rev().take(500).collect::<String>().chars().rev().collect();
+                    res.violation(
+                        "display-problem-broke-the-build",
+                        || format!("{} columns, description made of {:?} (shift {}): the build did not complete normally under a terminal; end of output: {:?}", cols, unit, shift, tail),
+                        replay,
+                    );
+                } else {
+                    res.nontrivial += 1;
+                    res.outcome(&format!("pty-ok-{}", cols));
+                }
+            }
+        }
+    }
+}
+
+// --- hide_success ------------------------------------------------------------------
+
+/// `hide_success` hides the output of a command that succeeded, never that of
+/// one that failed.
+fn hide_job(ctx: &mut Ctx, res: &mut ShardResult) {
+    let job = ctx.job.clone();
+    ctx.marker.set(0, b"hide");
+    for (hide, fail) in [(true, true), (false, true), (true, false), (false, false)] {
+        fresh();
+        res.evaluations += 1;
+        let manifest = format!(
+            "rule r\n  command = echo OUT-LINE; echo ERR-LINE >&2; head -c 5000 /dev/zero | tr '\\0' p; {}\n  description = STEP\n{}build o: r\n",
+            if fail { "exit 3" } else { "touch $out" },
+            if hide { "  hide_success = 1\n" } else { "" }
+        );
+        std::fs::write("build.ninja", &manifest).unwrap();
+        let o = n2(&[]);
+        let text = String::from_utf8_lossy(&o.stdout).to_string();
+        let shown = text.contains("OUT-LINE") && text.contains("ERR-LINE") && find_all(&o.stdout, &vec![b'p'; 5000]) == 1;
+        let replay = || json!({"job": job, "hide": hide, "fail": fail});
+        if fail && (!shown || o.code == Some(0)) {
+            res.violation("failed-command-output-not-shown", || format!("hide_success={} and the command fails: its output must be shown and n2 must fail; exit {:?}\n{}", hide, o.code, text.chars().take(300).collect::<String>()), replay);
+        } else if !fail && !hide && !shown {
+            res.violation("output-not-intact", || format!("a succeeding command's output is missing:\n{}", text.chars().take(300).collect::<String>()), replay);
+        } else {
+            res.nontrivial += 1;
+            res.outcome(&format!("hide-ok-{}-{}", hide, fail));
+        }
+    }
+}
+
 // --- -C / -f / builddir (C18) ---------------------------------------------------
 
 fn flags_job(ctx: &mut Ctx, res: &mut ShardResult) {
@@ -723,7 +844,7 @@ fn flags_job(ctx: &mut Ctx, res: &mut ShardResult) {
     let mut idx = 0u64;
     for use_c in [false, true] {
         for use_f in [false, true] {
-            for use_builddir in [false, true] {
+            for (use_builddir, use_sub) in [(false, false), (true, false), (false, true), (true, true)] {
                 idx += 1;
                 if let Some(c) = &ctx.replay {
                     if c["index"].as_u64() != Some(idx) {
@@ -743,6 +864,12 @@ fn flags_job(ctx: &mut Ctx, res: &mut ShardResult) {
                     manifest.push_str("builddir = bd/sub\n");
                 }
                 manifest.push_str("rule cp\n  command = cp $in $out && echo ran-$out >> log.txt\nbuild mid: cp src\nbuild top: cp mid\nbuild unrelated: cp src2\ndefault top\n");
+                if use_sub {
+                    // A subninja file binds builddir in its own private scope;
+                    // that must not move the log.
+                    manifest.push_str("subninja sub.ninja\n");
+                    std::fs::write(format!("{}/sub.ninja", dir), "builddir = third_party/obj\nbuild subthing: cp src2\n").unwrap();
+                }
                 std::fs::write(format!("{}/{}", dir, fname), &manifest).unwrap();
                 std::fs::write(format!("{}/src", dir), "s").unwrap();
                 std::fs::write(format!("{}/src2", dir), "s2").unwrap();
@@ -768,7 +895,8 @@ fn flags_job(ctx: &mut Ctx, res: &mut ShardResult) {
                     res.violation("flags-change-what-is-built", || format!("C={} f={} builddir={}: exit {:?}, commands run: {:?}\n{}", use_c, use_f, use_builddir, o1.code, log, t1), replay);
                     continue;
                 }
-                if !std::path::Path::new(&db_expected).exists() || std::path::Path::new(&db_other).exists() || (use_c && std::path::Path::new(".n2_db").exists()) {
+                let stray = std::path::Path::new(&format!("{}/third_party/obj/.n2_db", dir)).exists();
+                if stray || !std::path::Path::new(&db_expected).exists() || std::path::Path::new(&db_other).exists() || (use_c && std::path::Path::new(".n2_db").exists()) {
                     res.violation("log-in-wrong-place", || format!("C={} f={} builddir={}: expected the log at {}", use_c, use_f, use_builddir, db_expected), replay);
                     continue;
                 }
@@ -940,6 +1068,8 @@ pub fn run(ctx: &mut Ctx) -> ShardResult {
     match parts[1] {
         "argv" => argv_job(ctx, &mut res),
         "conform" => conform_job(ctx, &mut res),
+        "pty" => pty_job(ctx, &mut res),
+        "hide" => hide_job(ctx, &mut res),
         "fdleak" => fdleak_job(ctx, &mut res),
         "dirs" => dirs_job(ctx, &mut res),
         "msvc" => msvc_job(ctx, &mut res),
